@@ -12,8 +12,8 @@ EXTENDS Integers, Sequences, FiniteSets, TLC, Json, IOUtils, JobQueueProps
 Trace == ndJsonDeserialize(IOEnv.VERIF_TRACE)
 N == Len(Trace)
 
-VARIABLES l, pass, seen, jpass, hf, viol
-vars == <<l, pass, seen, jpass, hf, viol>>
+VARIABLES l, pass, seen, jpass, hf, sl, viol
+vars == <<l, pass, seen, jpass, hf, sl, viol>>
 
 NoPass == [t0 |-> -1, view |-> <<>>]
 MaxCOf(s) == [c \in 1..2 |-> IF ToString(c) \in DOMAIN s.maxc THEN s.maxc[ToString(c)] ELSE 1]
@@ -69,7 +69,7 @@ StepFails(p, s, ps) ==
     \cup Fail("C07_RefusedOnlyWhenDue", C07_RefusedOnlyWhenDueStep(p.api, s.api, s.now))
     \cup Fail("C15_Monotone", \A c \in DOMAIN s.jcapi : c \in DOMAIN p.jcapi => C15_MonotoneStep(p.jcapi[c], s.jcapi[c]))
 
-Init == l = 1 /\ pass = NoPass /\ seen = NoSeen /\ jpass = [c |-> "", v |-> [sch |-> 0, exe |-> 0]] /\ hf = FALSE /\ viol = {}
+Init == l = 1 /\ pass = NoPass /\ seen = NoSeen /\ jpass = [c |-> "", v |-> [sch |-> 0, exe |-> 0]] /\ hf = FALSE /\ sl = FALSE /\ viol = {}
 
 Next ==
     /\ l <= N
@@ -89,7 +89,11 @@ Next ==
            fs == StateFails(e) \cup CoverFails(s, sn) \cup (IF reset \/ l = 1 THEN {} ELSE StepFails(Trace[l - 1].st, s, ps))
        IN /\ pass' = ps /\ seen' = sn /\ jpass' = jp
           /\ hf' = IF e.ev = "Reset" THEN FALSE ELSE hf \/ IsFault(e)
-          /\ viol' = viol \cup {r \in {[f |-> f, line |-> l, run |-> e.run, ev |-> e.ev, faulted |-> e.faulted, af |-> (hf \/ IsFault(e))] : f \in fs} : ~\E v \in viol : v.f = r.f /\ v.run = r.run}   \* first failure of a formula in a run only
+          \* witness of the store-listener-lag history: a per-config pass read the active count while the store's listener
+          \* still had undelivered Job events (client-go gives no order between the listeners of one informer)
+          /\ sl' = IF e.ev = "Reset" THEN FALSE ELSE sl \/ (e.ev = "StepCount" /\ l > 1 /\ Trace[l - 1].st.storeq > 0)
+          /\ viol' = viol \cup {r \in {[f |-> f, line |-> l, run |-> e.run, ev |-> e.ev, faulted |-> e.faulted, af |-> (hf \/ IsFault(e)),
+                                 slag |-> (sl \/ (e.ev = "StepCount" /\ l > 1 /\ Trace[l - 1].st.storeq > 0))] : f \in fs} : ~\E v \in viol : v.f = r.f /\ v.run = r.run}   \* first failure of a formula in a run only
 Spec == Init /\ [][Next]_vars
 
 \* printed once, in the last state
